@@ -277,7 +277,11 @@ def run_exp(case):
         geom = None if g["type"] == "None" else build(g, tu, fu)
         anns.append(data.SoundEventAnnotation(sound_event=data.SoundEvent(recording=rec, geometry=geom),
                                               tags=[data.Tag(key="ev", value=str(i))]))
-    kw = {"value_only": True} if case["vo"] else {}
+    kw = {}
+    if case["vo"] != "a":
+        kw["value_only"] = case["vo"] == "t"
+    if case["lsel"]:
+        kw["select_by_key"] = case["lsel"][0]
     raised, items = observe(lambda: do_export(anns, case, rec, **kw))
     return {"raised": raised, "items": items if raised == "" else []}
 
@@ -381,7 +385,7 @@ def random_cases(rng, tier):
         yield {"kind": "exp", "via": via, "sr": sr, "tden": 1024, "fden": 1, "cast": rng.random() < 0.6,
                "ign": False if via in ("segment", "bbox") else rng.random() < 0.5,
                "rtg": True if via in ("segment", "sequence", "annot_seq") else rng.random() < 0.5,
-               "vo": rng.random() < 0.3, "evs": evs}
+               "vo": rng.choice(["a", "a", "t", "f"]), "lsel": rng.choice([[], [], ["ev"]]), "evs": evs}
     for _ in range(n // 2):
         # ---- round trips, te = 1, dyadic
         via = rng.choice(["segment", "bbox", "sequence", "annot_seq", "annot_bbox"])
@@ -396,7 +400,7 @@ def random_cases(rng, tier):
             frq = _interval(rng, sr * fd // 2, False) if box else []
             els.append({"sec": sec, "smp": smp, "frq": frq, "label": rng.choice(["L%d" % (j + 1), "__empty__", "a b", "x:y", " L%d" % (j + 1), "y\n", " ", "\tz ", "e", "_", "__", "pty", "empty", "m"])})
         yield {"kind": "rt", "via": via, "sr": sr, "te": [1, 1], "tden": td, "fden": fd, "exact": True, "cast": False, "ign": False,
-               "rtg": True, "vo": True, "ikey": rng.choice([[], ["K"]]), "sel": rng.choice([[], [], ["TM"]]), "els": els}
+               "rtg": True, "vo": "t", "lsel": [], "ikey": rng.choice([[], ["K"]]), "sel": rng.choice([[], [], ["TM"]]), "els": els}
     rates = [(8, [8, 1]), (100, [100, 1]), (1000, [1000, 1]), (8000, [8000, 1]), (22050, [22050, 1]), (44100, [210, 210]),
              (48000, [480, 100]), (96000, [960, 100]), (12345, [12345, 1])]
     for _ in range(n):
